@@ -25,6 +25,7 @@
 
 
 // project includes
+#include "celma/common/reset_at_exit.hpp"
 #include "celma/prog_args/detail/eval_arguments_error_exit.hpp"
 #include "celma/prog_args/i_usage_text.hpp"
 
@@ -191,6 +192,10 @@ void Groups::evalArguments( int argc, char* argv[]) noexcept( false)
 
    detail::ArgListParser  alp( argc, argv);
    bool                   usage_printed = false;
+
+   // the flag is only valid while the arguments are evaluated, also when the
+   // evaluation is left by an exception
+   const common::ResetAtExit< bool>  reset_evaluating( mEvaluating, false);
 
    mEvaluating = true;
 
